@@ -426,7 +426,7 @@ def finish_c10(ctx, res, cf):
         res.add(Finding('C10', 'C10.k', 'R-SIBLING', fb.file, fb.qualname, fb.node.lineno, 'lookup parameters %s' % diff,
                         'the in-memory and the file-based cassette do not honour the same lookup options (%s is read by one of them only): the same '
                         'query returns different sets on the two cassettes' % ', '.join(diff)))
-    _ci.import_clauses(ctx, res, 'C07', ['C07.a'], 'C10', 'C10.l', 'R-AGREE', 'the metadata a lookup filters on is stored in a form that decodes back to equal values (all cassettes filter the same values)', floor=2)
+    _ci.import_clauses(ctx, res, 'C07', ['C07.a', 'C07.b'], 'C10', 'C10.l', 'R-AGREE', 'what a lookup lists was stored whole: metadata decodes back to equal values, every saved recording has a place of its own (unique ids, one path per id)', floor=2)
     return res
 
 
